@@ -593,6 +593,11 @@ def extra_contracts():
     that leaves the caller's context variables alone - which holds because every disposable is entered in a gather child, a
     task with its own copy of the context (T-GATHER, T-CV)."""
     from .C08 import Enter, Exit
+    from .C01 import Lookup, Updated
     # ... and `Disposables.__aexit__` as a callee that returns nothing truthy (it can never make the scope swallow the body's
     # exception): its own clause P4
-    return [variant(Enter, "C02", ("P6:",)), variant(Exit, "C02", ("P4:never-suppresses",))]
+    # ... and the scope state object as immutable: a block that supplies nothing shares the very ScopeState object of the code
+    # around it (`ScopeState.updated` returns `self` for an empty update), and resetting a token restores the *object* - what
+    # the surrounding code sees afterwards is what that object holds then.  Lookups and updates must not write to it.
+    return [variant(Enter, "C02", ("P6:",)), variant(Exit, "C02", ("P4:never-suppresses",)),
+            variant(Lookup, "C02", lambda n: "(frame" in n), variant(Updated, "C02", lambda n: "(frame" in n)]
